@@ -132,11 +132,12 @@ type Sys struct {
 	hist    []Op
 	dead    bool // a panic escaped the allocator: the instance is not used any further
 	broken  bool
-	dirty   bool // ghost: something was freed since time last passed
+	dirty   bool            // ghost: something was freed since time last passed
+	wide    map[int64]int64 // ghost: outstanding blocks that were returned WIDER than an allocation block: first block -> number of blocks covered
 }
 
 func NewSys(r *ev.Run, id string, p Pool, foreign, rich bool) *Sys {
-	s := &Sys{r: r, id: id, g: newGeom(p), held: map[int64]bool{}, foreign: foreign, rich: rich}
+	s := &Sys{r: r, id: id, g: newGeom(p), held: map[int64]bool{}, wide: map[int64]int64{}, foreign: foreign, rich: rich}
 	var err error
 	if p.V4 {
 		s.a, err = bitmap.NewIPv4Allocator(net.ParseIP(p.Start), net.ParseIP(p.End))
@@ -203,6 +204,11 @@ func (s *Sys) Ops() []Op {
 			b := g.blockBase(i)
 			ip := g.ipBytes(b)
 			ops = append(ops, s.mkOp("alloc", ip, full(g.page), fmt.Sprintf("hint block %d /page", i)))
+			if !s.rich && i < 2 && g.page >= 1 {
+				// one hint shape with a length shorter than the allocation length also outside the
+				// rich alphabet: what comes back must still be one allocation block
+				ops = append(ops, s.mkOp("alloc", ip, full(g.page-1), fmt.Sprintf("hint block %d base with a /page-1 length", i)))
+			}
 			if s.rich {
 				last := g.ipBytes(new(big.Int).Add(b, new(big.Int).Sub(g.size, big.NewInt(1))))
 				ops = append(ops, s.mkOp("alloc", last, full(128), fmt.Sprintf("hint last address of block %d /128", i)))
@@ -318,7 +324,11 @@ func (s *Sys) Key() string {
 		h = append(h, i)
 	}
 	sort.Slice(h, func(i, j int) bool { return h[i] < h[j] })
-	return fmt.Sprintf("bits=%v held=%v freed-since-tick=%v", s.bits(), h, s.dirty)
+	w := ""
+	if len(s.wide) > 0 {
+		w = fmt.Sprintf(" wide=%v", s.wide) // (maps print sorted)
+	}
+	return fmt.Sprintf("bits=%v held=%v freed-since-tick=%v%s", s.bits(), h, s.dirty, w)
 }
 
 // instrumented: the binary was built with the overlay (the allocators then read the clock
@@ -463,6 +473,24 @@ func (s *Sys) Apply(op Op, live bool) (obs string) {
 			}
 			obs += " hinted"
 		}
+		if blk >= 0 && live {
+			// C04 on blocks returned wider than one allocation block: they cover their neighbours
+			for w, n := range s.wide {
+				if w != blk && blk >= w && blk < w+n {
+					s.violate("C04", "overlaps-outstanding-wide-block", fmt.Sprintf("Allocate(%s) returned block %d (%v), which lies inside the outstanding block that was returned %d allocation blocks wide at block %d", ipn.String(), blk, got, n, w))
+				}
+			}
+			if ones < g.page && bitsW == g.width && g.page-ones < 31 {
+				n := int64(1) << uint(g.page-ones)
+				first := blk - blk%n
+				for h := range s.held {
+					if h != blk && h >= first && h < first+n {
+						s.violate("C04", "wide-block-overlaps-outstanding", fmt.Sprintf("Allocate(%s) returned %v, %d allocation blocks wide, which covers outstanding block %d", ipn.String(), got, n, h))
+					}
+				}
+				s.wide[first] = n
+			}
+		}
 		if blk >= 0 {
 			s.held[blk] = true
 		}
@@ -482,6 +510,7 @@ func (s *Sys) Apply(op Op, live bool) (obs string) {
 		}
 		want := tgt >= 0 && s.held[tgt]
 		if err == nil {
+			delete(s.wide, tgt)
 			obs = fmt.Sprintf("free-ok tgt=%d", tgt)
 		} else {
 			obs = "free-err"
